@@ -78,12 +78,13 @@ def corrupt_apply(run):
 def run(ctx):
     ctx.build(BIN)
     # --- the executable semantics: laws, and the codec model pinned to the loop condition of the code
-    ctx.tlc_mc("MC_PaZipStream", cfg="MC_PaZipStream.cfg", workers=4,
+    deep = "_deep" if ctx.thorough else ""
+    ctx.tlc_mc("MC_PaZipStream", cfg="MC_PaZipStream%s.cfg" % deep, workers=4,
                note="PaZipStream laws: copy closed form, field-width table, codec round trip with the repaired loop condition (LoopBits=8)")
     ctx.tlc_mc("MC_PaZipStream", cfg="MC_PaZipStream_pinned.cfg", workers=4, expect="CodecLaw",
                note="codec model with the loop condition of the pinned decode_matches (has_bits(3)): zero padding of the last byte is parsed as a match (C02-KF9)")
     # --- B2: match sequences with TLC-computed validity / bits / decoded output / legacy layout
-    beh, nbeh = ctx.tlc_generate("MC_PaZipStream", cfg="MC_PaZipStreamGen.cfg", workers=4, timeout=900)
+    beh, nbeh = ctx.tlc_generate("MC_PaZipStream", cfg="MC_PaZipStreamGen%s.cfg" % deep, workers=4, timeout=900)
     if nbeh == 0:
         raise vlib.ToolError("MC_PaZipStreamGen produced no items")
     s2 = ctx.harness(BIN, "replay", "b2", extra={"in": beh})
@@ -138,6 +139,7 @@ def run(ctx):
         f["max_payload"] = max(f["max_payload"], d.get("max_payload", 0))
     cov["distinct_nontrivial"] = nontrivial + s2.get("executions", 0)
     cov["subjects"] = len(subs)
+    cov["subject_variants"] = sum(len(d.get("variants", [])) for d in subs.values())
     cov["families"] = fams
     cov["vacuous_subjects"] = sorted(vacuous)
     cov["algorithm_chosen"] = algo_cov
@@ -177,7 +179,8 @@ def replay(ctx, path):
     ctx.tier = rep.get("tier", ctx.tier)
     ctx.seed = rep.get("seed", ctx.seed)
     if subj.startswith("pazipstream"):
-        beh, _ = ctx.tlc_generate("MC_PaZipStream", cfg="MC_PaZipStreamGen.cfg", workers=4, timeout=900)
+        deep = "_deep" if ctx.tier == "thorough" else ""
+        beh, _ = ctx.tlc_generate("MC_PaZipStream", cfg="MC_PaZipStreamGen%s.cfg" % deep, workers=4, timeout=900)
         s = ctx.harness(BIN, "replay", "rp", extra={"in": beh}, subject=subj)
     else:
         s = ctx.harness(BIN, "drive", "rp", subject=subj, extra={"threads": 2})
